@@ -600,6 +600,12 @@ class World:
                 return e
             ids = []
             for a, is_payload in keep:
+                if not expand_ws and not is_payload and a.op == "call" and self.callee_body(a) is not None:
+                    # unexpanded workspace call: keep the Ok/Some projection (the call denotes the wrapper)
+                    kept = e if a is e.args[0] else E("proj", (a,), e.info)
+                    if kept not in ids:
+                        ids.append(kept)
+                    continue
                 i = self.ident(a, depth + 1, expand_ws)
                 if not is_payload and i is not a and i.op in ("phi", "adt"):
                     # the wrapper resolved to explicit Option/Result values: project again
